@@ -30,6 +30,8 @@ def run(d):
 
 if __name__ == '__main__':
     dirs = sorted(glob.glob('/verif/seeded/*/'))
-    with concurrent.futures.ProcessPoolExecutor(max_workers=8) as ex:
+    if sys.argv[1:]:
+        dirs = [d for d in dirs if any(a in d for a in sys.argv[1:])]      # only the seeds whose id contains one of the words given
+    with concurrent.futures.ProcessPoolExecutor(max_workers=14) as ex:
         for sid, checks, problem in ex.map(run, dirs):
             print(('!! ' if problem else '   ') + sid, problem or {k: v['rules'] for k, v in checks.items()})
